@@ -61,8 +61,65 @@ theorem foldl_stepLayout_inv (data : List Instr) (st : List Nat × List (Nat × 
   | nil => exact h
   | cons x xs ih => exact ih _ (stepLayout_inv st x h)
 
-theorem processLayout_inv (data : List Instr) : LayoutInv (processLayout data) :=
+theorem layoutLoop_inv (data : List Instr) : LayoutInv (layoutLoop data) :=
   foldl_stepLayout_inv data _ ⟨List.nodup_nil, by simp⟩
+
+theorem insertAsc_perm (q : Nat) (l : List Nat) : (insertAsc q l).Perm (q :: l) := by
+  induction l with
+  | nil => exact List.Perm.refl _
+  | cons x xs ih =>
+    unfold insertAsc
+    split
+    · exact List.Perm.refl _
+    · exact (List.Perm.cons x ih).trans (List.Perm.swap q x xs)
+
+/-- `used_q.sort()` only permutes the list … -/
+theorem sortAsc_perm (l : List Nat) : (sortAsc l).Perm l := by
+  induction l with
+  | nil => exact List.Perm.refl _
+  | cons x xs ih => exact (insertAsc_perm x (sortAsc xs)).trans (List.Perm.cons x ih)
+
+theorem insertAsc_sorted (q : Nat) (l : List Nat) (h : l.Pairwise (· ≤ ·)) : (insertAsc q l).Pairwise (· ≤ ·) := by
+  induction l with
+  | nil => simp [insertAsc]
+  | cons x xs ih =>
+    unfold insertAsc
+    have hx := List.pairwise_cons.mp h
+    split
+    · rename_i hq
+      exact List.pairwise_cons.mpr ⟨fun y hy => by
+        rcases List.mem_cons.mp hy with rfl | hy
+        · exact hq
+        · exact le_trans hq (hx.1 y hy), h⟩
+    · rename_i hq
+      refine List.pairwise_cons.mpr ⟨fun y hy => ?_, ih hx.2⟩
+      rcases List.mem_cons.mp ((insertAsc_perm q xs).subset hy) with rfl | hy
+      · omega
+      · exact hx.1 y hy
+
+/-- … and the result is ascending -/
+theorem sortAsc_sorted (l : List Nat) : (sortAsc l).Pairwise (· ≤ ·) := by
+  induction l with
+  | nil => exact List.Pairwise.nil
+  | cons x xs ih => exact insertAsc_sorted x _ ih
+
+theorem processLayout_inv (data : List Instr) : LayoutInv (processLayout data) := by
+  obtain ⟨h1, h2⟩ := layoutLoop_inv data
+  have hp := sortAsc_perm (layoutLoop data).1
+  exact ⟨hp.nodup_iff.mpr h1, fun p hp' => hp.mem_iff.mpr (h2 p hp')⟩
+
+/-- the processed layout is strictly ascending -/
+theorem processLayout_ascending (data : List Instr) : (processLayout data).1.Pairwise (· < ·) := by
+  have hs : (processLayout data).1.Pairwise (· ≤ ·) := sortAsc_sorted _
+  have hn : (processLayout data).1.Pairwise (· ≠ ·) := (processLayout_inv data).1
+  exact (hs.and hn).imp (fun ⟨a, b⟩ => lt_of_le_of_ne a b)
+
+/-- sorting changes neither which qubits are used nor how many -/
+theorem processLayout_length (data : List Instr) : (processLayout data).1.length = (layoutLoop data).1.length :=
+  (sortAsc_perm _).length_eq
+
+theorem mem_processLayout (data : List Instr) (q : Nat) : q ∈ (processLayout data).1 ↔ q ∈ (layoutLoop data).1 :=
+  (sortAsc_perm _).mem_iff
 
 /-! ### bit strings -/
 
